@@ -3,13 +3,43 @@
 For each seeded/<id>/: git -C /repo apply patch.diff ; ./check <property> --tier quick ; git -C /repo checkout -- .
 Evidence files are restored afterwards (they must come from runs on the unchanged tree)."""
 import json, os, re, subprocess, sys, time
-VERIF = "/verif"
-ids = sys.argv[1:] or sorted(os.listdir(os.path.join(VERIF, "seeded")))
+# VERIF_DIR / VERIF_REPO: a shard runs in its own copy of /verif against its own worktree of /repo (scripts/seedreport_par.sh);
+# --rows <file>: append the rows as JSON lines instead of writing REPORT.md (merged by `seedreport.py --merge <files…>`)
+VERIF = os.environ.get("VERIF_DIR", "/verif")
+REPO = os.environ.get("VERIF_REPO", "/repo")
+args = sys.argv[1:]
+rows_out = None
+if args[:1] == ["--rows"]:
+    rows_out, args = args[1], args[2:]
+def write_report(rows):
+    with open(os.path.join("/verif", "seeded", "REPORT.md"), "w") as f:
+        f.write("# Seeded changes vs. the checks (quick tier)\n\nWritten by scripts/seedreport.py; each change was applied to the repository, the property's check was run, the change was undone.\n\n")
+        from collections import Counter
+        c = Counter(r[3] for r in rows)
+        f.write("Totals: %d changes: %s\n\n" % (len(rows), ", ".join("%s: %d" % kv for kv in sorted(c.items()))))
+        f.write("| change | property | files touched | verdict | obligations that broke | replay (last line of the failing case) |\n|---|---|---|---|---|---|\n")
+        for sid, pid, files, verdict, broken, first in rows:
+            f.write("| %s | %s | %s | %s | %s | %s |\n" % (sid, pid, "<br>".join(files), verdict, broken.replace("|", "/"), first))
+if args[:1] == ["--merge"]:
+    rows = []
+    for fn in args[1:]:
+        rows += [json.loads(l) for l in open(fn) if l.strip()]
+    def key(r):
+        m = re.match(r"S-(C\d+[a-z]?)-(\d+)", r[0]); return (m.group(1), int(m.group(2))) if m else (r[0], 0)
+    rows.sort(key=key)
+    for r in rows:
+        mp = os.path.join("/verif", "seeded", r[0], "meta.json")
+        meta = json.load(open(mp)); meta["check_verdict_now"] = r[3]; meta["check_broken_obligations_now"] = r[4]
+        json.dump(meta, open(mp, "w"), indent=1)
+    write_report(rows)
+    print("merged", len(rows), "rows")
+    sys.exit(0)
+ids = args or sorted(os.listdir(os.path.join(VERIF, "seeded")))
 ids = [i for i in ids if os.path.isdir(os.path.join(VERIF, "seeded", i))]
 def sh(cmd, timeout=3600):
     p = subprocess.run(cmd, shell=True, stdout=subprocess.PIPE, stderr=subprocess.STDOUT, text=True, timeout=timeout)
     return p.returncode, p.stdout
-assert sh("git -C /repo status --porcelain")[1].strip() == "", "/repo not clean"
+assert sh("git -C %s status --porcelain" % REPO)[1].strip() == "", REPO + " not clean"
 rows = []
 for sid in ids:
     d = os.path.join(VERIF, "seeded", sid)
@@ -17,13 +47,13 @@ for sid in ids:
     pid = meta["property"]
     patch = os.path.join(d, "patch.diff")
     files = sorted(set(re.findall(r"^\+\+\+ b/(\S+)", open(patch).read(), re.M)))
-    rc, o = sh("git -C /repo apply %s" % patch)
+    rc, o = sh("git -C %s apply %s" % (REPO, patch))
     if rc != 0:
         rows.append((sid, pid, files, "patch does not apply", "", ""))
         continue
     try:
         t0 = time.time()
-        rc, o = sh("cd /verif && ./check %s --tier quick" % pid)
+        rc, o = sh("cd %s && ./check %s --tier quick" % (VERIF, pid))
         viol = [l for l in o.splitlines() if l.startswith("VIOLATION")]
         verdict = "MISSED" if not viol else ("caught (no-failing-input-found)" if "no-failing-input-found" in viol[0] else "caught (replay)")
         broken, first = "", ""
@@ -51,13 +81,12 @@ for sid in ids:
         rows.append((sid, pid, files, verdict, broken, first))
         print(sid, pid, verdict, broken[:120], flush=True)
     finally:
-        sh("git -C /repo checkout -- .")
-sh("cd /verif && git checkout -- evidence/")
-with open(os.path.join(VERIF, "seeded", "REPORT.md"), "w") as f:
-    f.write("# Seeded changes vs. the checks (quick tier)\n\nWritten by scripts/seedreport.py; each change was applied to /repo, the property's check was run, the change was undone.\n\n")
-    f.write("| change | property | files touched | verdict | obligations that broke | replay (last line of the failing case) |\n|---|---|---|---|---|---|\n")
-    for sid, pid, files, verdict, broken, first in rows:
-        f.write("| %s | %s | %s | %s | %s | %s |\n" % (sid, pid, "<br>".join(files), verdict, broken.replace("|", "/"), first))
-    n = len(rows); c = sum(1 for r in rows if r[3].startswith("caught")); rp = sum(1 for r in rows if r[3] == "caught (replay)")
-    f.write("\n%d changes, %d caught (%d with a concrete replay), %d missed.\n" % (n, c, rp, n - c))
-print("report written")
+        sh("git -C %s checkout -- ." % REPO)
+    if rows_out and rows:
+        with open(rows_out, "a") as f:
+            f.write(json.dumps(rows[-1]) + "\n")
+if VERIF == "/verif":
+    sh("cd /verif && git checkout -- evidence/")
+if rows_out:
+    sys.exit(0)
+write_report(rows)
